@@ -154,10 +154,11 @@ func (i *interpreter) concretize(x symInt) value {
 		unsup("concretization of symbolic integer with range [%s,%s] (index/size/shift must be concrete or tightly bounded)", t.Lo, t.Hi)
 	}
 	n := int(w.Int64()) + 1
+	lo := new(big.Int).Set(t.Lo) // t.Lo is tightened by the decision below: capture it first
 	k := i.decideN(n, func(k int) *smt.Term {
-		return i.m.C.Eq(t, i.m.C.Const(new(big.Int).Add(t.Lo, big.NewInt(int64(k)))))
+		return i.m.C.Eq(t, i.m.C.Const(new(big.Int).Add(lo, big.NewInt(int64(k)))))
 	})
-	return mkInt(x.k, new(big.Int).Add(t.Lo, big.NewInt(int64(k))))
+	return mkInt(x.k, new(big.Int).Add(lo, big.NewInt(int64(k))))
 }
 
 // idx converts an index/size value to int64, concretising when needed.
